@@ -292,11 +292,46 @@ def gen_configs(tier, seed):
     return out
 
 
+def node_reads(sizes, paced):
+    """The same statement one level up: a stream of 40 watchdog requests (128 octets each) reaches a real Node's socket in
+    network reads of the given sizes (the I/O loop reads with recv(2048)); every request must be answered once, in order."""
+    from ..world import World, peer_cfg, app_cfg
+    load()
+    w = World(peers=[peer_cfg("p1")], apps=[app_cfg("a1", peers=["p1"])])
+    try:
+        w.start()
+        vc = w.accept()
+        w.feed(vc, [msgs.cer("p1.r1")])
+        frames = []
+        for i in range(1, 41):
+            m = msgs.dwr("p1.r1", hbh=i, e2e=i)
+            b = m.as_bytes()
+            m.append_avp(msgs.Avp.new(msgs.K.AVP_USER_NAME, value="u" * (128 - len(b) - 8)))
+            b = m.as_bytes()
+            assert len(b) == 128, len(b)
+            frames.append(b)
+        stream = b"".join(frames)
+        base = len(vc.tx)
+        pos = 0
+        for n in sizes:
+            vc.sock.feed(stream[pos:pos + n])
+            pos += n
+            if paced:
+                w.run()
+        assert pos == len(stream)
+        w.run()
+        w.tick(1)
+        got = [m["hbh"] for m in vc.tx[base:] if m["cmd"] == "DW" and not m["req"]]
+        return got, vc.closed, [(n, e) for n, e, _ in w.s.exits]
+    finally:
+        w.close()
+
+
 def run(tier, seed):
     ck = Check("C05", tier, seed, "model_checking")
     thorough = tier == "thorough"
     ck.assumptions += [
-        "network reads enter through PeerConnection.add_in_bytes (the I/O loop's recv size only bounds chunk length)",
+        "network reads enter through PeerConnection.add_in_bytes; the I/O loop's own socket read (recv(2048)) is exercised by a node-level stage with reads of 2047 / 2048 / 2049 / 4096 / 5120 octets, paced and all at once",
         "a misaligned buffer head is modelled as an arbitrary length field and an arbitrary decode outcome",
         "progress is measured in framing-loop iterations (header parses) per consumed byte, not wall time",
     ]
@@ -417,12 +452,30 @@ def run(tier, seed):
             ck.drift_note("Trace_C05: invariant %s violated on a trace state" % rr["violated"])
     ck.cov["traces_validated_against_impl"] = validated
     ck.cov["traces_rejected"] = rejected
+    # ---- node level: the same stream through the real Node's socket read (recv(2048)) in reads of critical sizes ----
+    nlev = 0
+    for sizes in ([2048, 2048, 1024], [2047, 2049, 1024], [2049, 2047, 1024], [4096, 1024], [5120], [2048, 1, 3071], [128] * 40,
+                  [20, 2028, 3072], [2048, 3072], [1024, 2048, 2048]):
+        for paced in (True, False):
+            got, closed, exits = node_reads(sizes, paced)
+            nlev += 1
+            if got != list(range(1, 41)) or closed or exits:
+                ck.violation("node_read_delivery_mismatch", "40 watchdog requests in network reads of %r octets (%s): answered %r, connection closed %s, thread exits %r" % (
+                    sizes, "one read per I/O iteration" if paced else "all pending at once", got, closed, exits), {"node_reads": sizes, "paced": paced})
+    ck.cov["node_level_read_patterns"] = nlev
     return ck.finish()
 
 
 def replay(path, seed):
     body = json.load(open(path))
     rp = body["replay"]
+    if "node_reads" in rp:
+        got, closed, exits = node_reads(rp["node_reads"], rp["paced"])
+        print("replayed: answered %r closed %s exits %r" % (got, closed, exits))
+        if got != list(range(1, 41)) or closed or exits:
+            print("VIOLATION property=C05 replay=%s" % path)
+            return 1
+        return 0
     frames = []
     # rebuild concrete frames of the same kinds/sizes
     for i, f in enumerate(rp["frames"]):
